@@ -158,6 +158,8 @@ func (tg *TCPGroup) worker() {
 			tg.acceptCh <- c
 		})
 		if err != nil {
+			// the group was closed while this connection waited to be handed to a member
+			_ = c.Close()
 			return
 		}
 	}
